@@ -382,10 +382,11 @@ Definition lanes_rule (ly : layer) (lane_ids : list N) (fatal : list N) : Prop :
   N.of_nat (length lane_ids) + N.of_nat (length fatal) = expect_lanes ly /\
   (ly = L_Inner -> exists g, In g IB_GROUPS /\ sort_N (map ib_id_to_lane lane_ids) = minus g fatal).
 
-Lemma frame_lanes_valid_iff ly fr fatal :
+(* [Hf8]: either no fatal lane number is above 8, or such a number is ignored by the grouping code (regenerated fact) *)
+Lemma frame_lanes_valid_iff_gen ly fr fatal :
   let f := match fatal with Some f => f | None => [] end in
   N.of_nat (length (fr_lanes fr)) + N.of_nat (length f) < 18446744073709551616 ->
-  (ly = L_Inner -> forall x, In x f -> x <= 8) ->
+  (ly = L_Inner -> existsb (fun x => 8 <? x) f && negb Gen.Facts.fatal_lane_beyond_barrel_is_ignored = false) ->
   exists r, frame_lanes_valid ly fr fatal = Ok r /\ (r = None <-> lanes_rule ly (map fst (fr_lanes fr)) f).
 Proof.
   intros f Hsz Hf8. unfold frame_lanes_valid, lanes_rule. rewrite map_length.
@@ -402,11 +403,8 @@ Proof.
   destruct (n =? exp) eqn:E; cbn [negb].
   - assert (Hn : n + N.of_nat (length f) = expect_lanes ly) by (apply Hexp; reflexivity).
     destruct ly.
-    + unfold inner_groupings. fold f.
-      assert (Hno : existsb (fun x => 8 <? x) f = false).
-      { destruct (existsb (fun x => 8 <? x) f) eqn:X; [|reflexivity]. apply existsb_exists in X. destruct X as [x [Hx Hl]].
-        apply N.ltb_lt in Hl. specialize (Hf8 eq_refl x Hx). lia. }
-      rewrite Hno. rewrite map_map. cbn [fst].
+    + unfold inner_groupings, inner_groupings_gen. fold f.
+      rewrite (Hf8 eq_refl). rewrite map_map. cbn [fst].
       set (s := sort_N (map (fun l => ib_id_to_lane (fst l)) (fr_lanes fr))).
       fold (minus [0; 1; 2] f). fold (minus [3; 4; 5] f). fold (minus [6; 7; 8] f).
       destruct (list_N_eqb s (minus [0; 1; 2] f) || list_N_eqb s (minus [3; 4; 5] f) || list_N_eqb s (minus [6; 7; 8] f)) eqn:G.
@@ -423,6 +421,32 @@ Proof.
   - eexists. split; [reflexivity|]. split; [discriminate|]. intros [Hn _]. apply Hexp in Hn. congruence.
 Qed.
 
+Lemma frame_lanes_valid_iff ly fr fatal :
+  let f := match fatal with Some f => f | None => [] end in
+  N.of_nat (length (fr_lanes fr)) + N.of_nat (length f) < 18446744073709551616 ->
+  (ly = L_Inner -> forall x, In x f -> x <= 8) ->
+  exists r, frame_lanes_valid ly fr fatal = Ok r /\ (r = None <-> lanes_rule ly (map fst (fr_lanes fr)) f).
+Proof.
+  intros f Hsz Hf8. apply frame_lanes_valid_iff_gen; [exact Hsz|]. intros Hly.
+  assert (Hno : existsb (fun x => 8 <? x) f = false).
+  { destruct (existsb (fun x => 8 <? x) f) eqn:X; [|reflexivity]. apply existsb_exists in X. destruct X as [x [Hx Hl]].
+    apply N.ltb_lt in Hl. specialize (Hf8 Hly x Hx). lia. }
+  unfold f in Hno. rewrite Hno. reflexivity.
+Qed.
+(* with the repaired grouping code: for EVERY list of fatal lane numbers *)
+Lemma frame_lanes_valid_iff_when (ign : bool) : ign = true -> ign = Gen.Facts.fatal_lane_beyond_barrel_is_ignored ->
+  forall ly fr fatal, let f := match fatal with Some f => f | None => [] end in
+  N.of_nat (length (fr_lanes fr)) + N.of_nat (length f) < 18446744073709551616 ->
+  exists r, frame_lanes_valid ly fr fatal = Ok r /\ (r = None <-> lanes_rule ly (map fst (fr_lanes fr)) f).
+Proof.
+  intros Hi Hg ly fr fatal f Hsz. apply frame_lanes_valid_iff_gen; [exact Hsz|]. intros _. rewrite <- Hg, Hi. apply andb_false_r.
+Qed.
+(* the pinned commit (finding F17): lane number 9 known as fatal, a frame with the matching count *)
+Lemma c13_refuted_fatal_lane_beyond_barrel :
+  inner_groupings_gen false [0; 1] [9] = Panic SITE_fatal_lane_number /\ inner_groupings_gen true [0; 1] [9] = Ok (Some 2) /\
+  inner_groupings_gen true [0; 2] [9; 1] = Ok None.
+Proof. repeat split; reflexivity. Qed.
+
 (* ---------------------------------------------------------------- E. the verdict of a closed frame *)
 Definition known_of (o : option (list N)) : list N := match o with Some f => f | None => [] end.
 Definition frame_code (ly : layer) (lane_level : bool) : N :=
@@ -431,12 +455,12 @@ Definition frame_code (ly : layer) (lane_level : bool) : N :=
   | L_Inner, true => 74 | _, true => 75
   end.
 
-Lemma c13_process_frame_when (after dedup : bool) :
+Lemma c13_process_frame_when (after dedup ign : bool) :
   after = true -> after = Gen.Facts.fatal_lanes_added_after_lane_check -> dedup = Gen.Facts.fatal_lanes_deduplicated ->
+  ign = true -> ign = Gen.Facts.fatal_lane_beyond_barrel_is_ignored ->
   forall c s rf fr ly, rf_frame rf = Some fr -> fr_lanes fr <> [] -> rf_layer rf = Some ly ->
   Forall (lane_total ly (v_chip_count c) (v_chip_orders c)) (fr_lanes fr) ->
   N.of_nat (length (fr_lanes fr)) + N.of_nat (length (known_of (rf_fatal_lanes rf))) < 18446744073709551616 ->
-  (ly = L_Inner -> forall x, In x (known_of (rf_fatal_lanes rf)) -> x <= 8) ->
   exists s' m1 m3,
     process_readout_frame c s rf = Ok (s', m1 ++ [VStats (flags_of (fr_lanes fr) rflags_zero)] ++ m3) /\
     (* lane count / grouping: judged against the lanes that announced FATAL in EARLIER frames *)
@@ -449,12 +473,12 @@ Lemma c13_process_frame_when (after dedup : bool) :
     (exists rf', cs_rfv s' = Some rf' /\ rf_frame rf' = None /\ rf_in_frame rf' = false /\
                  rf_fatal_lanes rf' = add_fatal_lanes dedup (rf_fatal_lanes rf) (fatal_of ly (v_chip_count c) (v_chip_orders c) (fr_lanes fr))).
 Proof.
-  intros Ha Hfa Hfd c s rf fr ly Hfr Hne Hly Htot Hsz H8.
+  intros Ha Hfa Hfd Hi Hgi c s rf fr ly Hfr Hne Hly Htot Hsz.
   unfold process_readout_frame. rewrite Hfr, Hly.
   destruct (fr_lanes fr) as [|l0 ls] eqn:Hl; [contradiction|]. rewrite <- Hl in *.
   destruct (check_frame_spec ly (v_chip_count c) (v_chip_orders c) fr Htot) as [res [Hc [He [Hm [Hf Hfl]]]]].
   rewrite Hc. rewrite <- Hfa, Ha.
-  destruct (frame_lanes_valid_iff ly fr (rf_fatal_lanes rf)) as [lv [Hv Hiff]]; [exact Hsz|exact H8|].
+  destruct (frame_lanes_valid_iff_when ign Hi Hgi ly fr (rf_fatal_lanes rf)) as [lv [Hv Hiff]]; [exact Hsz|].
   fold (known_of (rf_fatal_lanes rf)) in Hiff. rewrite Hv.
   eexists. eexists. eexists. split; [rewrite Hfl; reflexivity|].
   split; [|split; [|split; [|split]]].
